@@ -177,7 +177,10 @@ def first_axis_point(o, where="inside"):
 # ---------------------------------------------------------------------------------------------
 
 VALID = ["fill_inside", "fill_above", "fill_below", "fill_edge", "fill_weighted", "fill_heavy", "fill_n", "fill_n_weighted", "iadd_copy", "isub_empty", "isub_half",
-         "imul2", "idiv2", "merge2", "normalize", "dtype_float", "iadd_float_copy", "imul_half"]
+         "imul2", "idiv2", "merge2", "normalize", "dtype_float", "iadd_float_copy", "imul_half",
+         # batches that lie entirely on one side of the present bins (adaptive bins grow on that side only;
+         # seeded C18-force-bin-existence-zero-shift-means-unchanged)
+         "fill_n_all_above", "fill_n_all_below"]
 VALID_COL = ["col_add", "col_member_fill", "col_create", "col_create_beyond", "col_member_fill_beyond"]
 
 
@@ -224,6 +227,9 @@ def apply_valid(o, name, ref=None):
         o.fill_n(np.array([p(o), p(o, "above")]))
     elif name == "fill_n_weighted":
         o.fill_n(np.array([p(o), p(o, "edge")]), np.array([0.5, 2.0]))
+    elif name in ("fill_n_all_above", "fill_n_all_below"):
+        pt = np.asarray(p(o, name.rsplit("_", 1)[1]), dtype=float)
+        o.fill_n(np.array([pt, pt + 0.125, pt + 0.25]))
     elif name == "iadd_copy":
         o += o.copy()
     elif name == "isub_empty":
